@@ -3,10 +3,12 @@
    Model: GV.Num.ForLoop — IM = prepfor/advfor (runtime/luacont.go Type7
    opcodes) driven by the compiled loop shape; S = for_s (manual §3.3.5:
    arithmetic progression, count computed in Z, float limit clipped).
+   The IM mirrors the code after the round-2 repair of prepfor/advfor (integer loop: limit clipped by
+   forLimit; float loop: all three values floats, runs while value <= limit).
    fuel bounds only how much of the (possibly 2^64-long) run is unfolded: every
    statement holds for every fuel.  No axioms. *)
 From Coq Require Import ZArith List Bool.
-From GV Require Import Base.W64 Base.F64 Num.Model Num.Spec Num.ForLoop Num.ForProofs.
+From GV Require Import Base.W64 Base.F64 Num.Model Num.Spec Num.ForLoop Num.ForProofs Num.ForClip.
 Import ListNotations.
 Open Scope Z_scope.
 
@@ -45,3 +47,44 @@ Theorem C16_zero_step_error : forall fuel start limit,
   for_im fuel start limit (NFlt (fzero true)) = FErrZero.
 Proof. exact zero_step_error. Qed.
 Print Assumptions C16_zero_step_error.
+
+(* The clipping of a float limit (floor / ceil of the exact value, max/mininteger or no loop beyond the
+   int64 range, no loop for NaN) is the manual's, for every binary64 limit. *)
+Theorem C16_forlimit_spec : forall lim st, st <> 0 ->
+  match s_forlimit lim st with
+  | Some l => forLimit lim st = (l, false)
+  | None => snd (forLimit lim st) = true
+  end.
+Proof. exact forlimit_spec. Qed.
+Print Assumptions C16_forlimit_spec.
+
+(* An integer loop with ANY limit - integer, float, infinite, NaN - is the manual's loop. *)
+Theorem C16_int_loop_any_limit : forall fuel s lim st, in64 s -> in64 st -> st <> 0 ->
+  match lim with NInt l => in64 l | NFlt _ => True end ->
+  for_im fuel (NInt s) lim (NInt st) = for_s fuel (NInt s) lim (NInt st).
+Proof. exact int_loop_any_limit. Qed.
+Print Assumptions C16_int_loop_any_limit.
+
+(* A float loop (start or step is a float) is iterated float addition while value <= limit
+   (>= for a non-positive step) after converting all three values to floats. *)
+Theorem C16_float_loop_definition : forall fuel start limit step,
+  match step with NInt n => in64 n | NFlt _ => True end -> is_float_loop start step = true ->
+  for_im fuel start limit step = for_s fuel start limit step.
+Proof. exact float_loop_definition. Qed.
+Print Assumptions C16_float_loop_definition.
+
+Theorem C16_nan_limit_float_loop_skips : forall fuel start limit step,
+  match step with NInt n => in64 n | NFlt _ => True end -> is_float_loop start step = true ->
+  limit = NFlt fnan -> for_im fuel start limit step = FRun [] true \/ for_im fuel start limit step = FErrZero.
+Proof. exact nan_limit_float_loop_skips. Qed.
+Print Assumptions C16_nan_limit_float_loop_skips.
+
+(* A control value that is not a number is an error naming its role (initial value, limit, step in this order). *)
+Theorem C16_non_number_error : forall fuel start limit step,
+  (fv_num start = None -> for_im_val fuel start limit step = FVErrInit) /\
+  (fv_num start <> None -> fv_num limit = None -> for_im_val fuel start limit step = FVErrLimit) /\
+  (fv_num start <> None -> fv_num limit <> None -> fv_num step = None -> for_im_val fuel start limit step = FVErrStep) /\
+  (forall a b c, fv_num start = Some a -> fv_num limit = Some b -> fv_num step = Some c ->
+     for_im_val fuel start limit step = FVRes (for_im fuel a b c)).
+Proof. exact non_number_error. Qed.
+Print Assumptions C16_non_number_error.
